@@ -145,6 +145,20 @@ def formatCode (blocks : List (List (List Str))) : List Str :=
       (List.range t0.length).map fun i =>
         (blocks.map fun b => (b.map fun t => t.getD i []).flatten).flatten
 
+/-- `format_code` with its failure: `code = [""] * len(code_blocks[0][0])` raises IndexError when
+there is no first block or the first block is empty; `c[i] for c in block` with `i < len(code)`
+raises IndexError exactly when some tuple of some block is SHORTER than the first tuple of the
+first block (longer tuples are silently truncated). `none` = IndexError. -/
+def formatCodeE (blocks : List (List (List Str))) : Option (List Str) :=
+  match blocks with
+  | [] => none
+  | b0 :: _ =>
+    match b0 with
+    | [] => none
+    | t0 :: _ =>
+      if blocks.all (fun b => b.all (fun t => decide (t0.length ≤ t.length))) then some (formatCode blocks)
+      else none
+
 /-- The `CodeBlocks` named tuple of codegeneration.generate_code. -/
 structure CodeBlocks where
   filePre : List (List Str)
